@@ -36,6 +36,7 @@ pub enum Pl {
     SelfRaw,                   // self.0 of NodeStamp
     SelfField(String),         // self.<f> of a MutVal(Node) self
     SelfTup(usize),            // component of a pair-shaped self (iterator states)
+    LocalField(String, String), // field of a local IndentedBlockState value
     ArenaField(&'static str),  // first_free_slot / last_free_slot
     Slot(String),              // the node stored at (nat) index
     SlotField(String, String), // .<field> of that node
@@ -69,6 +70,7 @@ pub fn eqb(ty: &Ty, a: &str, b: &str) -> R<String> {
         Ty::I16 | Ty::Stamp => format!("Z.eqb {} {}", paren(a), paren(b)),
         Ty::Nat | Ty::NzNat => format!("Nat.eqb {} {}", paren(a), paren(b)),
         Ty::Edge => format!("edge_eqb {} {}", paren(a), paren(b)),
+        Ty::LState => format!("lstate_eqb {} {}", paren(a), paren(b)),
         t => return Err(format!("no equality test for type {:?}", t)),
     })
 }
@@ -97,6 +99,11 @@ pub fn ty_of(t: &Type) -> Ty {
         "Node<T>" => Ty::Node,
         "Option<&Node<T>>" | "Option<&mutNode<T>>" => Ty::opt(Ty::Node),
         "Vec<NodeId>" => Ty::ListNid,
+        "&'staticstr" | "'staticstr" | "str" => Ty::Str,
+        "fmt::Result" => Ty::Unit,
+        "Result<(),()>" => Ty::URes,
+        "IndentedBlockState" => Ty::IState,
+        "LineState" => Ty::LState,
         "DeSt" => Ty::DeSt,
         "IterSt" => Ty::IterSt,
         _ => Ty::Unknown,
@@ -130,6 +137,8 @@ impl Cx {
                 }
             }
             Expr::Unary(u) if matches!(u.op, UnOp::Deref(_)) => self.place(&u.expr, pres),
+            Expr::Index(ix) if matches!(&*ix.index, Expr::Range(_)) => Ok(None),
+            Expr::Index(ix) if ts(&ix.expr).replace(' ', "") == "self.indents" => Ok(None),
             Expr::Index(ix) => {
                 // arena[id] | self[id] | self.nodes[usize]
                 let base = ts(&ix.expr).replace(' ', "");
@@ -174,6 +183,7 @@ impl Cx {
                     match (&self.cur.self_kind, fname.as_str()) {
                         (SelfKind::MutVal(Ty::Stamp), "0") => return Ok(Some(Pl::SelfRaw)),
                         (SelfKind::MutVal(Ty::Node), _) => return Ok(Some(Pl::SelfField(fname))),
+                        (SelfKind::MutVal(Ty::Writer), "line_state") | (SelfKind::MutVal(Ty::Writer), "indents") | (SelfKind::MutVal(Ty::Writer), "pending_ws_only_indent_level") => return Ok(Some(Pl::SelfField(fname))),
                         (SelfKind::Arena, "first_free_slot") => return Ok(Some(Pl::ArenaField("ffree"))),
                         (SelfKind::Arena, "last_free_slot") => return Ok(Some(Pl::ArenaField("lfree"))),
                         _ => return Ok(None),
@@ -181,6 +191,7 @@ impl Cx {
                 }
                 match self.place(&f.base, pres)? {
                     Some(Pl::Slot(idx)) => Ok(Some(Pl::SlotField(idx, fname))),
+                    Some(Pl::Local(x)) if matches!(self.lookup(&x), Some(Bnd::Val { ty: Ty::IState, .. })) => Ok(Some(Pl::LocalField(x, fname))),
                     _ => Ok(None),
                 }
             }
@@ -230,6 +241,25 @@ impl Cx {
                 };
                 Ok((format!("{} {}", if *i == 0 { "fst" } else { "snd" }, paren(&self.self_var)), tys[*i].clone()))
             }
+            Pl::SelfField(f) if matches!(self.cur.self_kind, SelfKind::MutVal(Ty::Writer)) => {
+                let s = self.self_var.clone();
+                Ok(match f.as_str() {
+                    "line_state" => (format!("g_lst {}", s), Ty::LState),
+                    "indents" => (format!("g_ind {}", s), Ty::ListIState),
+                    _ => (format!("g_pend {}", s), Ty::Nat),
+                })
+            }
+            Pl::LocalField(x, f) => {
+                let t = match self.lookup(x) {
+                    Some(Bnd::Val { term, .. }) => term.clone(),
+                    _ => return Err(format!("unbound {}", x)),
+                };
+                match f.as_str() {
+                    "is_last_item" => Ok((format!("fst {}", paren(&t)), Ty::Bool)),
+                    "is_first_line" => Ok((format!("snd {}", paren(&t)), Ty::Bool)),
+                    _ => Err(format!("unknown IndentedBlockState field {}", f)),
+                }
+            }
             Pl::SelfField(f) => {
                 let s = self.self_var.clone();
                 self.node_field_read(&s, f)
@@ -272,6 +302,31 @@ impl Cx {
                 pres.push(Pre::Let(n.clone(), t));
                 self.self_var = n;
                 Ok(())
+            }
+            Pl::SelfField(f) if matches!(self.cur.self_kind, SelfKind::MutVal(Ty::Writer)) => {
+                let n = self.gensym("v_self_");
+                let setter = match f.as_str() {
+                    "line_state" => "set_g_lst",
+                    "indents" => "set_g_ind",
+                    _ => "set_g_pend",
+                };
+                pres.push(Pre::Let(n.clone(), format!("{} {} {}", setter, paren(&crate::expr::lit_as(v, &Ty::Nat)), self.self_var)));
+                self.self_var = n;
+                Ok(())
+            }
+            Pl::LocalField(x, f) => {
+                let (t, ty) = match self.lookup(x) {
+                    Some(Bnd::Val { term, ty }) => (term.clone(), ty.clone()),
+                    _ => return Err(format!("unbound {}", x)),
+                };
+                let nv = match f.as_str() {
+                    "is_last_item" => format!("({}, snd {})", v, paren(&t)),
+                    "is_first_line" => format!("(fst {}, {})", paren(&t), v),
+                    _ => return Err(format!("unknown IndentedBlockState field {}", f)),
+                };
+                let n = self.gensym(&format!("v_{}_", sanitize(x)));
+                pres.push(Pre::Let(n.clone(), nv));
+                self.assign(x, Bnd::Val { term: n, ty })
             }
             Pl::SelfField(f) => {
                 let n = self.gensym("v_self_");
